@@ -19,7 +19,10 @@ RULE = ('1-6 route declarations (literals over an alphabet with every regex meta
         'newline/CR/NUL, percent-encoding, invalid UTF-8 splices) or fully random; non-trivial = some declared route has a '
         'placeholder AND (the outcome is a match with a non-empty match dictionary OR the path is an edited instantiation, '
         'i.e. a near-miss); distinct by full case; thorough tier additionally runs the exhaustive small-scope '
-        'enumeration described in coverage.sub_runs (gen.EXH_SPACE)')
+        'enumeration described in coverage.exhaustive_subruns (gen.EXH_SPACE); histories on ONE long-lived mapper/app: earlier '
+        'dispatches whose match dictionary is then mutated, and listings (get_routes(include_static), has_routes, get_route) '
+        'before the final dispatch; router mode declares routes inside nested config.include(route_prefix=..) and uses the real '
+        'request_method / xhr / request_param / header predicates, plain and wrapped in not_()')
 ASSUMPTIONS = [
     'route patterns are str; {name:regex} regexes outside the sublanguage (a non-empty sequence of atoms \\d \\w . [set] [^set] or a '
     'plain character, each with quantifier none + * ? {n} {n,} {,m} {n,m}) are classified Unsupported by the model and excluded',
@@ -34,13 +37,15 @@ TRUSTED = [
     'flow mechanical); its output is proved equal to the hand-written reference model on every run',
     'hand-written model of the parts NOT translated: the pattern parser part of _compile_route (masked shape pin + '
     'regenerated string literals), Router.handle_request, RoutesMapper.__init__, update_pattern, the rest of add_route / '
-    'route_prefix_context with the translated fragments cut out (shape pins)',
+    'route_prefix_context with the translated fragments cut out, the request chain of Router, get_routes_mapper, the predicate '
+    'list machinery of config/predicates.py and the predicate classes the runs use (shape pins)',
     "CPython re for the supported sublanguage and re.escape, WebOb's PATH_INFO decoding (modelled, validated by the "
     'correspondence run, not verified)',
 ]
 TECHNIQUE = ('control-flow model REGENERATED from the source on every run by a fail-closed Python-ast -> Gallina translator '
              '(RoutesMapper.__call__, RoutesMapper.connect, Route.__init__, the matcher closure of _compile_route, split_path_info, '
-             'decode_path_info, the route-prefix fragments of Configurator.add_route / route_prefix_context) + Coq proofs that the regenerated program equals the hand-written reference model and satisfies '
+             'decode_path_info, the listings get_routes / has_routes / get_route, the route-prefix fragments of Configurator.add_route / '
+             'route_prefix_context) + Coq proofs that the regenerated program equals the hand-written reference model and satisfies '
              'the property theorems + regenerated string facts + differential correspondence of the extracted regenerated program')
 LEVEL_TEXT = ('Machine-checked theorems for every pattern of the modelled sublanguage, every path and every route list: the '
               'backtracking matcher of the compiled pattern is sound, complete and greedy w.r.t. a declarative decomposition '
@@ -98,6 +103,10 @@ def valid(case):
         if case['mode'] == 'router' and not G.router_ok(case):
             return False
         for st in case.get('history') or []:
+            if 'list' in st:
+                if st['list'][0] not in ('routes', 'has', 'get') or (st['list'][0] == 'get' and not isinstance(st['list'][1], str)):
+                    return False
+                continue
             if not isinstance(st['path'], str) or any(ord(c) > 255 for c in st['path']) or st['method'] not in ('GET', 'POST'):
                 return False
             for op in st['mutate']:
@@ -123,7 +132,7 @@ def _dec(path):
 
 
 def _decoded(case):
-    return _dec(case['path']) + ''.join(_dec(st['path']) for st in case.get('history') or [])
+    return _dec(case['path']) + ''.join(_dec(st['path']) for st in case.get('history') or [] if 'list' not in st)
 
 
 def _oracle(case):
@@ -143,13 +152,20 @@ def _pred_wire(p):
     return [2, p[1], p[2]]
 
 
+def _step_wire(st):
+    if 'list' in st:
+        op = st['list']
+        return [1, int(op[1])] if op[0] == 'routes' else [2] if op[0] == 'has' else [3, op[1]]
+    return [[st['path']], st['method']]
+
+
 def to_wire(case):
     decls = [[d['name'], d['pattern'], int(d['static']), [_pred_wire(p) for p in d['preds']],
               list(d.get('levels') or []), int(d.get('inherit') or 0)] for d in case['decls']]
     raw = [] if case['path'] is None else [case['path']]
     w = [_oracle(case), decls, raw, case['method'], 1 if case['mode'] == 'router' else 0]
     if case.get('history'):
-        w.append([[[st['path']], st['method']] for st in case['history']])
+        w.append([_step_wire(st) for st in case['history']])
     return w
 
 
@@ -174,8 +190,8 @@ def from_wire(case, raw):
     if spec:
         sp = _canon_outcome(spec[0])
         if hist:
-            if all(hs):
-                sp = [sp, [_canon_outcome(x[0]) for x in hs]]
+            if all(x for x, st in zip(hs, hist) if 'list' not in st):
+                sp = [sp, [None if 'list' in st else _canon_outcome(x[0]) for x, st in zip(hs, hist)]]
             else:
                 sp = None
     return {'model': model, 'spec': sp}
@@ -281,9 +297,19 @@ def _run_mapper(case):
             return out
         except _impl['URLDecodeError']:
             return [0]
-    hist = [one(h['path'], h['method'], h['mutate']) for h in case.get('history') or []]
+    def listing(op):
+        # what proutes / introspection tooling does on the long-lived mapper between requests
+        if op[0] == 'routes':
+            return [4, [r._verif_idx for r in mapper.get_routes(include_static=bool(op[1]))]]
+        if op[0] == 'has':
+            return [5, int(bool(mapper.has_routes()))]
+        r = mapper.get_route(op[1])
+        return [6, [] if r is None else [r._verif_idx]]
+    hist = [listing(h['list']) if 'list' in h else one(h['path'], h['method'], h['mutate']) for h in case.get('history') or []]
     del calls[:]
     out = one(case['path'], case['method'], [])
+    rl = [r._verif_idx for r in mapper.routelist]
+    st = [r._verif_idx for r in mapper.static_routes]
     res = [sts, rl, st, out, _trace(calls)]
     if case.get('history'):
         res.append(hist)
@@ -323,14 +349,23 @@ def _run_router(case):
     try:
         config = _impl['Configurator']()
         for i, d in enumerate(case['decls']):
-            # exactly one method predicate: the real request_method= predicate (RequestMethodPredicate through the
-            # default route predicate list); everything else as custom predicates
+            # real predicates where the model's predicate language allows it: exactly one method predicate ->
+            # request_method= ; constants -> predicates of different kinds whose outcome is fixed for the requests of the
+            # harness (no X-Requested-With, no query string, no X-Nope header), plain or wrapped in not_(); the rest as
+            # custom predicates.  Kind order in the predicate list: xhr, request_method, request_param, header, custom.
+            from pyramid.config import not_
             meth = [p for p in d['preds'] if p[0] == 'method']
-            real = meth[0] if len(meth) == 1 else None
-            preds = [_mk_pred(p, i, calls) for p in d['preds'] if p is not real]
+            real = {id(meth[0]): ('request_method', meth[0][1])} if len(meth) == 1 else {}
+            kinds_free = [('xhr', True), ('request_param', 'zz_nope'), ('header', 'X-Nope')]
+            for j, p in enumerate(d['preds']):
+                if p[0] == 'const' and kinds_free:
+                    kname, falseval = kinds_free.pop((i + j) % len(kinds_free))
+                    # falseval is a predicate value that does NOT hold for the harness's requests
+                    real[id(p)] = (kname, not_(falseval) if p[1] else falseval)
+            preds = [_mk_pred(p, i, calls) for p in d['preds'] if id(p) not in real]
             kw = dict(static=bool(d['static']), custom_predicates=preds)
-            if real is not None:
-                kw['request_method'] = real[1]
+            for kname, val in real.values():
+                kw[kname] = val
             if d.get('inherit'):
                 kw['inherit_slash'] = True
             _add_route_nested(config, list(d.get('levels') or []), d['name'], d['pattern'], kw)
@@ -363,8 +398,17 @@ def _run_router(case):
             return [1, seen[j['name']], j['match']]
         except _impl['URLDecodeError']:
             return [0]
-    hist = [one(h['path'], h['method'], h['mutate']) for h in case.get('history') or []]
+    def listing(op):
+        if op[0] == 'routes':
+            return [4, [seen[r.name] for r in mapper.get_routes(include_static=bool(op[1]))]]
+        if op[0] == 'has':
+            return [5, int(bool(mapper.has_routes()))]
+        r = mapper.get_route(op[1])
+        return [6, [] if r is None else [seen[r.name]]]
+    hist = [listing(h['list']) if 'list' in h else one(h['path'], h['method'], h['mutate']) for h in case.get('history') or []]
     out = one(case['path'], case['method'], [])
+    rl = [seen[r.name] for r in mapper.routelist]
+    st = [seen[r.name] for r in mapper.static_routes]
     res = [[], rl, st, out, []]
     if case.get('history'):
         res.append(hist)
@@ -397,7 +441,9 @@ def spec_holds(case, obs, spec):
         return None
     if case.get('history'):
         # every dispatch of the history, and the final one, must be the specification's answer for ITS path
-        return len(obs) == 6 and [out, obs[5]] == spec
+        if len(obs) != 6 or out != spec[0] or len(obs[5]) != len(spec[1]):
+            return False
+        return all(sp == [] or o == sp for o, sp in zip(obs[5], spec[1]))   # [] (canon of None): a listing, nothing to judge
     return out == spec
 
 
@@ -440,7 +486,11 @@ def kinds(case, obs):
     sts, rl, st, out, tr = obs[:5]
     if len(obs) == 6:
         k.append('history-%d' % len(obs[5]))
-        same = [h for h, o in zip(case['history'], obs[5]) if h['path'] == case['path'] and o and o[0] == 1 and o[2]]
+        if any('list' in h for h in case['history']):
+            k.append('history-listing')
+            if st and any(h.get('list', [0, 0])[:2] == ['routes', 1] for h in case['history']):
+                k.append('history-listing-with-static-routes')
+        same = [h for h, o in zip(case['history'], obs[5]) if 'list' not in h and h['path'] == case['path'] and o and o[0] == 1 and o[2]]
         if same and out[0] == 1:
             k.append('history-same-path-matched-then-mutated' if any(h['mutate'] for h in same) else 'history-same-path-matched')
     k.append({0: 'decode-error', 1: 'match', 2: 'no-route', 3: 'config-error'}.get(out[0], '?'))
